@@ -818,7 +818,9 @@ func c07Run(c *vk.Case) {
 	if variant > 0 {
 		start = uint64(r.Range(1, 40))
 	}
-	tracesUsed := filter.UseTraces && !filter.UseReceipts && !filter.UseLogs
+	// traces are fetched whenever the plan holds them (also next to receipts or logs), and an empty
+	// trace_block result is an error of its own: every block of such a chain has a trace
+	tracesUsed := filter.UseTraces
 	opts := gen.ChainOpts{Seed: r.U64(), MinTxs: 0, MaxTxs: 3, MaxLogs: 2, MinTraces: 0, MaxTraces: 2, Makers: c07LogMakers()}
 	if tracesUsed || variant == 0 {
 		opts.MinTxs, opts.MinTraces = 1, 1
